@@ -21,7 +21,7 @@ MUT = {
 		}
 """, ""),
  "threshold_off_by_one": (E+"engine.go", "errCount < e.errorsThreshold", "errCount <= e.errorsThreshold"),
- "ec_placement_by_own_id": (E+"put.go", "shs = e.sortedShards(obj.GetParentID())", "shs = e.sortedShards(addr.Object())"),
+ "ec_placement_by_own_id": (E+"put.go", "	if iec.ObjectWithAttributes(*obj) {\n		shs = e.sortedShards(obj.GetParentID())", "	if iec.ObjectWithAttributes(*obj) && false {\n		shs = e.sortedShards(obj.GetParentID())"),
  "exists_removed_continue": (E+"exists.go", """			if errors.Is(err, apistatus.ErrObjectAlreadyRemoved) ||
 				errors.Is(err, ierrors.ErrParentObject) ||""", """			if errors.Is(err, ierrors.ErrParentObject) ||"""),
  "head_removed_continue": (E+"head.go", """			case errors.Is(err, apistatus.ErrObjectAlreadyRemoved):
